@@ -352,7 +352,7 @@ class C20(Prop):
             return mk(rnd.choice(["list", "tuple"]), items=[self.rval(rnd, depth + 1) for _ in range(rnd.randint(0, 3))])
         if r < 0.85:
             # (keys that mean something special as TOP-LEVEL props are ordinary keys inside a dict value)
-            ks = rnd.sample(["k", "m", "a b", "c-d", "style", "class_", "children", "className"], rnd.randint(0, 3))
+            ks = rnd.sample(["k", "m", "a b", "c-d", "style", "class_", "children", "className", "a__b", "x___y"], rnd.randint(0, 3))
             return {"p": "dict", "v": [], "items": [{"k": cps(k), "val": self.rval(rnd, depth + 1)} for k in ks]}
         if depth > 0:
             # inside a list/dict value only tags and components are written as elements (values inside
@@ -396,7 +396,8 @@ class C20(Prop):
             if rnd.random() < 0.2:
                 attrs.append({"k": cps("style"), "val": {"p": "str", "v": cps("color:red;margin:0"), "items": []}})
             return nd("T", name=rnd.choice(["div", "span", "p"]), props=attrs, kids=kids)
-        keys = rnd.sample(["a", "class_", "data_x", "onClick", "x__", "value", "aria_label"], rnd.randint(0, 4))
+        keys = rnd.sample(["a", "class_", "data_x", "onClick", "x__", "value", "aria_label", "block__elem", "a__b", "a_b", "x___y_", "_lead"],
+                          rnd.randint(0, 4))
         props = [{"k": cps(k), "val": self.rval(rnd, 0)} for k in keys]
         if rnd.random() < 0.3:
             sv = rnd.choice([{"p": "none", "v": [], "items": []}, {"p": "str", "v": cps("color:red;border:1px solid"), "items": []},
